@@ -7,4 +7,5 @@
 //verif:include ../C16/jws_sign.go
 //verif:harness H_C16_jws_sign_attrs
 //verif:harness H_C16_jws_sign_signer
+//verif:harness H_C08_jws_sign_fold
 package jws
